@@ -4,6 +4,7 @@ package main
 
 import (
 	"fmt"
+	"go/constant"
 	"go/token"
 	"strings"
 
@@ -83,9 +84,10 @@ type otelRule struct {
 	counts map[string]int
 	errKey string
 	kind   string // "start" or "complete"
+	instr  map[string]string // field name -> role (by the instrument's public name)
 }
 
-func (r *otelRule) Inline(fn *ssa.Function) bool { return false }
+func (r *otelRule) Inline(fn *ssa.Function) bool { return PkgOf(fn) == PkgOtel }
 func (r *otelRule) PredOK(string) bool            { return true }
 
 // sigma: comma-separated "name=count" sorted
@@ -156,7 +158,18 @@ func (r *otelRule) OnInstr(e *Engine, st *State, fc *FrameCtx, in ssa.Instructio
 	case tn == "Span" && c.Method.Name() == "End":
 		st.Sigma = bump(st.Sigma, "span-end")
 	case (tn == "Int64Counter" || tn == "Float64Histogram") && (c.Method.Name() == "Add" || c.Method.Name() == "Record"):
-		if t2, fld, _, ok := fieldLoad(c.Value); ok && t2 == "Observability" {
+		t2, fld, _, ok := fieldLoad(c.Value)
+		if !ok {
+			// the instrument may have been handed to a helper as an argument
+			cn := e.CanonS(fc, c.Value)
+			if i := strings.LastIndex(cn, ")."); i >= 0 && !strings.ContainsAny(cn[i+2:], "()[]") {
+				t2, fld, ok = "Observability", cn[i+2:], true
+			}
+		}
+		if ok && t2 == "Observability" {
+			if role, ok := r.instr[fld]; ok {
+				fld = role
+			}
 			st.Sigma = bump(st.Sigma, fld)
 			if c.Method.Name() == "Add" && !isConstInt(c.Args[1], 1) {
 				e.Report(st, in.Pos(), FuncDisplay(fc.fn)+"/counter-increment/"+fld, "counter %s is incremented by something other than the constant 1", fld)
@@ -204,6 +217,39 @@ func checkOtel(c *Ctx, p *Prog, rule string) {
 		{"OnPersistComplete", "complete", "", "persistDuration", "persistErrors"},
 	}
 	allCounters := []string{"publishCounter", "handlerCounter", "handlerDuration", "handlerErrors", "persistCounter", "persistDuration", "persistErrors"}
+	// the instruments are identified by their public metric names, not by field names
+	byMetric := map[string]string{
+		"eventbus.publish.count": "publishCounter", "eventbus.handler.count": "handlerCounter", "eventbus.handler.duration": "handlerDuration",
+		"eventbus.handler.errors": "handlerErrors", "eventbus.persist.count": "persistCounter", "eventbus.persist.duration": "persistDuration",
+		"eventbus.persist.errors": "persistErrors",
+	}
+	instr := map[string]string{}
+	if nf := p.Func(PkgOtel, "New"); nf != nil {
+		for _, b := range nf.Blocks {
+			for _, in := range b.Instrs {
+				st, ok := in.(*ssa.Store)
+				if !ok {
+					continue
+				}
+				tn, fld, _, ok := fieldOfAddr(st.Addr)
+				if !ok || tn != "Observability" {
+					continue
+				}
+				if ex, ok := stripConv(st.Val).(*ssa.Extract); ok {
+					if call, ok := ex.Tuple.(*ssa.Call); ok && call.Common().IsInvoke() && len(call.Common().Args) > 0 {
+						if k, ok := call.Common().Args[0].(*ssa.Const); ok && k.Value != nil {
+							if role, ok := byMetric[constant.StringVal(k.Value)]; ok {
+								instr[fld] = role
+							}
+						}
+					}
+				}
+			}
+		}
+	}
+	if len(instr) != len(byMetric) {
+		c.Unresolved(rule, "UNRESOLVED-ANCHOR/otel.New/instruments", fmt.Sprintf("found %d of %d instruments by their metric names", len(instr), len(byMetric)))
+	}
 	for _, sp := range specs {
 		f := p.Method(PkgOtel, "Observability", sp.method)
 		if f == nil {
@@ -211,7 +257,7 @@ func checkOtel(c *Ctx, p *Prog, rule string) {
 			continue
 		}
 		e := NewEngine(p)
-		r := &otelRule{counts: map[string]int{}, kind: sp.kind}
+		r := &otelRule{counts: map[string]int{}, kind: sp.kind, instr: instr}
 		if sp.kind == "complete" && len(f.Params) >= 4 {
 			r.errKey = nilKey(e.CanonS(nil, f.Params[3]))
 		}
